@@ -97,7 +97,7 @@ CHECKS = {
          "3/C09", "CFG-X"),
  "C10": ("fault_enumeration",
          "exhaustive enumeration of configuration class x flags x output pre-state x injected file-system answers (every fs call of the runner is a choice point, <=1 / <=2 faults)",
-         "34 configuration/environment classes x 16 flag combinations x 5 output pre-states; for every fault-free run every os.ReadFile / os.WriteFile / filepath.Glob call of the runner (rewritten with go build -overlay) is failed in turn (EACCES, EIO, ErrBadPattern; thorough: pairs): exit 0 iff the -o path holds exactly the fault-free bytes (and parses), otherwise the path is byte-for-byte and stat-for-stat unchanged; the numbered error list matches the failing step's count; --quiet prints nothing and changes neither exit status nor file effects; real binaries confirm the exit status per class.",
+         "37 configuration/environment classes x 16 flag combinations x 5 output pre-states; for every fault-free run every os.ReadFile / os.WriteFile / filepath.Glob call of the runner (rewritten with go build -overlay) is failed in turn (EACCES, EIO, ErrBadPattern; thorough: pairs): exit 0 iff the -o path holds exactly the fault-free bytes (and parses), otherwise the path is byte-for-byte and stat-for-stat unchanged; the numbered error list matches the failing step's count; --quiet prints nothing and changes neither exit status nor file effects; real binaries confirm the exit status per class.",
          "trusted: the fs shim; writes failing after truncation are outside the statement's fault list",
          "3/C10", "CHOICE-X"),
  "C12": ("exploration",
